@@ -6,14 +6,18 @@ Require Import ZArith List Bool Lia.
 Import ListNotations.
 Local Open Scope Z_scope.
 
-Definition umod (w z : Z) : Z := z mod 2 ^ w.                               (* bit pattern of z *)
+Definition umod (w z : Z) : Z := Z.land z (Z.ones w).                       (* bit pattern of z:  z mod 2^w  (umod_mod) *)
 Definition norm (sg : bool) (w z : Z) : Z :=                                (* value of type T with the pattern of z *)
-  let m := z mod 2 ^ w in if sg && (2 ^ (w - 1) <=? m) then m - 2 ^ w else m.
+  let m := umod w z in if sg && (2 ^ (w - 1) <=? m) then m - 2 ^ w else m.
+Lemma umod_mod w z : 0 <= w -> umod w z = z mod 2 ^ w.
+Proof. intros H. apply Z.land_ones, H. Qed.
+Lemma norm_mod sg w z : 0 <= w -> norm sg w z = (let m := z mod 2 ^ w in if sg && (2 ^ (w - 1) <=? m) then m - 2 ^ w else m).
+Proof. intros H. unfold norm. now rewrite umod_mod. Qed.
 Definition in_T (sg : bool) (w z : Z) : bool := if sg then (- 2 ^ (w - 1) <=? z) && (z <? 2 ^ (w - 1)) else (0 <=? z) && (z <? 2 ^ w).
 
 (* shifts as the compiler implements them on T: << wraps, >> is arithmetic for signed T (Z's floor division) *)
 Definition shl (sg : bool) (w x s : Z) : Z := norm sg w (x * 2 ^ s).
-Definition shr (x s : Z) : Z := x / 2 ^ s.
+Definition shr (x s : Z) : Z := Z.shiftr x s.                                     (* = x / 2^s (floor), Z.shiftr_div_pow2 *)
 Definition band (sg : bool) (w x y : Z) := norm sg w (Z.land x y).
 Definition bor (sg : bool) (w x y : Z) := norm sg w (Z.lor x y).
 Definition bnot (sg : bool) (w x : Z) := norm sg w (Z.lnot x).
